@@ -145,10 +145,18 @@ func (m *Machine) Step(op Op) error {
 		if err := m.mutated(si, t); err != nil {
 			return err
 		}
-	case OpDelete:
+	case OpDelete, OpDeleteTop:
 		ki, ok := PresentKey(t.Model, op.K)
 		if !ok {
 			return ErrSkipped
+		}
+		if op.Kind == OpDeleteTop {
+			best := -1
+			for _, k := range t.Model.Keys() {
+				if l := int(w.Cfg.RefLayer(w.Pool[k])); l > best || (l == best && op.K%2 == 1) {
+					best, ki = l, k
+				}
+			}
 		}
 		hBefore := t.M.Height()
 		if hBefore >= 1 && w.Cfg.RefLayer(w.Pool[ki]) >= 1 {
